@@ -152,6 +152,13 @@ def run(ctx):
         if (EMP, True) not in g or (EMPTY, False) not in g:
             ctx.report(Q3, f, n, 'empty interrupt guard', 'the interrupt is not conditional on the pop having emptied the queue: %s' % sorted(g))
     ctx.inst(Q3)
+    # a flush only empties the FIFO: it must not touch the sample period (the next frame is still due one period after
+    # the previous one) or anything else
+    from ..cases import observation_only_fields
+    fw = {p[1] for p, n, how in direct_writes(fns['SetTransmitFlush']['body'])} - observation_only_fields(ctx.F, B)
+    if not fw <= {'transmit_queue', 'transmit_empty', 'transmit_full'}:
+        ctx.report(Q3, fns['SetTransmitFlush'], fns['SetTransmitFlush']['body'], 'flush effects',
+                   'flushing changes %s besides the queue and its flags' % sorted(fw - {'transmit_queue', 'transmit_empty', 'transmit_full'}))
     if any(n.get('k') == 'opcall' and n.get('op') == '()' for n in walk(fns['SetTransmitFlush']['body'])):
         ctx.report(Q3, fns['SetTransmitFlush'], fns['SetTransmitFlush']['body'], 'flush', 'flushing invokes a callback')
     # ---- Q4
